@@ -26,36 +26,44 @@ class FormatError(ValueError):
 # ----------------------------------------------------------------------------- float reference (intervals)
 
 
-def distance_intervals(pos, H, ppp):
+def distance_intervals(pos, H, ppp, block=256):
     """dlo, dhi, tie : (N,N) arrays for the ordered pair (i,j), vector r_j - r_i.
     dlo == dhi unless some periodic fractional component of the pair lies within TIE_EPS of +-1/2; then the
-    interval spans the lengths of all the tied images."""
+    interval spans the lengths of all the tied images.  Rows are processed in blocks (memory for N ~ 1000)."""
     pos = np.asarray(pos, dtype=float)
     H = np.asarray(H, dtype=float)
     N, d = pos.shape
     per = np.asarray(ppp, dtype=float) > 0
-    R = (pos[None, :, :] - pos[:, None, :]).reshape(-1, d)
-    f = np.linalg.solve(H.T, R.T).T
-    n = np.where(per[None, :], np.floor(f + 0.5), 0.0)
-    r = f - n
-    tie = (np.abs(np.abs(r) - 0.5) < TIE_EPS) & per[None, :]
-    v = r @ H
-    dist = np.sqrt((v * v).sum(axis=1))
-    dlo = dist.copy()
-    dhi = dist.copy()
-    for q in np.nonzero(tie.any(axis=1))[0]:
-        axes = np.nonzero(tie[q])[0]
-        cands = []
-        for choice in itertools.product((0, 1), repeat=len(axes)):
-            rr = r[q].copy()
-            for a, c in zip(axes, choice):
-                if c:
-                    rr[a] -= np.sign(rr[a])
-            vv = rr @ H
-            cands.append(float(np.sqrt(vv @ vv)))
-        dlo[q] = min(cands)
-        dhi[q] = max(cands)
-    return dlo.reshape(N, N), dhi.reshape(N, N), tie.any(axis=1).reshape(N, N)
+    dlo = np.empty((N, N))
+    dhi = np.empty((N, N))
+    tie_any = np.zeros((N, N), dtype=bool)
+    for i0 in range(0, N, block):
+        i1 = min(N, i0 + block)
+        R = (pos[None, :, :] - pos[i0:i1, None, :]).reshape(-1, d)
+        f = np.linalg.solve(H.T, R.T).T
+        n = np.where(per[None, :], np.floor(f + 0.5), 0.0)
+        r = f - n
+        tie = (np.abs(np.abs(r) - 0.5) < TIE_EPS) & per[None, :]
+        v = r @ H
+        dist = np.sqrt((v * v).sum(axis=1))
+        lo = dist.copy()
+        hi = dist.copy()
+        for q in np.nonzero(tie.any(axis=1))[0]:
+            axes = np.nonzero(tie[q])[0]
+            cands = []
+            for choice in itertools.product((0, 1), repeat=len(axes)):
+                rr = r[q].copy()
+                for a, c in zip(axes, choice):
+                    if c:
+                        rr[a] -= np.sign(rr[a])
+                vv = rr @ H
+                cands.append(float(np.sqrt(vv @ vv)))
+            lo[q] = min(cands)
+            hi[q] = max(cands)
+        dlo[i0:i1] = lo.reshape(i1 - i0, N)
+        dhi[i0:i1] = hi.reshape(i1 - i0, N)
+        tie_any[i0:i1] = tie.any(axis=1).reshape(i1 - i0, N)
+    return dlo, dhi, tie_any
 
 
 def cutoff_classes(dlo, dhi, rc, tol):
@@ -70,10 +78,11 @@ def cutoff_classes(dlo, dhi, rc, tol):
 def order_ok(dlo_i, dhi_i, listed, tol):
     """listed (0-based) is in non-decreasing distance order, up to tol / tie intervals.  Returns the first bad
     position or -1."""
-    for k in range(len(listed) - 1):
-        if dlo_i[listed[k]] > dhi_i[listed[k + 1]] + tol:
-            return k
-    return -1
+    if len(listed) < 2:
+        return -1
+    idx = np.asarray(listed, dtype=np.intp)
+    bad = np.nonzero(dlo_i[idx[:-1]] > dhi_i[idx[1:]] + tol)[0]
+    return int(bad[0]) if len(bad) else -1
 
 
 def nearest_ok(dlo_i, dhi_i, i, listed, tol):
@@ -196,28 +205,46 @@ def parse_list_file(text, nparticle):
 
 def encode_list_file(frames, style):
     """Own writer for synthetic files.  frames = [{"header": str, "order": [ids in file order],
-    "rows": {id: [entry strings]}}]; style = {"lead": str, "sep": str, "trail": str}."""
+    "rows": {id: [entry strings]}}]; style = {"lead": str, "sep": str, "trail": str} plus optionally
+    "eol" (line terminator, default newline; carriage return + newline for files that went through Windows),
+    "tail" (text after the last frame, e.g. blank lines) and "final_newline" (False: the last row is not terminated;
+    only honoured when the tail is empty)."""
     out = []
     lead, sep, trail = style["lead"], style["sep"], style["trail"]
+    eol = style.get("eol", "\n")
     for fr in frames:
-        out.append(fr["header"] + "\n")
+        out.append(fr["header"] + eol)
         for pid in fr["order"]:
             ent = fr["rows"][pid]
-            out.append(lead + sep.join([str(pid), str(len(ent))] + list(ent)) + trail + "\n")
-    return "".join(out)
+            out.append(lead + sep.join([str(pid), str(len(ent))] + list(ent)) + trail + eol)
+    text = "".join(out)
+    tail = style.get("tail", "")
+    if not tail and not style.get("final_newline", True) and text.endswith(eol):
+        text = text[:-len(eol)]
+    return text + tail
 
 
-def frame_offsets(text, nparticle):
-    """Character offset of the start of every frame (plus the end of the text)."""
+def frame_offsets(text, nparticle, nframes=None):
+    """Character offset of the start of every frame (plus the end of the last frame) in `text` as delivered by the
+    file object (lines end with a newline character; the last line may be unterminated; text after the last of the
+    `nframes` frames, e.g. blank lines, belongs to no frame)."""
     per = nparticle + 1
     offs = [0]
     pos = 0
     count = 0
-    for ln in text.split("\n")[:-1]:
-        pos += len(ln) + 1
+    lines = text.split("\n")
+    if lines and lines[-1] == "":
+        lines = lines[:-1]
+        last_terminated = True
+    else:
+        last_terminated = False
+    for k, ln in enumerate(lines):
+        pos += len(ln) + (1 if (k < len(lines) - 1 or last_terminated) else 0)
         count += 1
         if count % per == 0:
             offs.append(pos)
+        if nframes is not None and len(offs) == nframes + 1:
+            break
     return offs
 
 
